@@ -650,3 +650,11 @@ class C10(Prop):
             return
         if len(case['kinds']) >= 2:
             res.nontrivial(case['src'])
+        # the marker stack is scratch state of one call: a preceding call abandoned in the middle of a list (its callback
+        # raised) must not change the nesting (implementation only: the model has no counterpart of an abandoned call)
+        if res.evaluations % 9 == 0:
+            ctx.impl.render('- first\n  . {undefined-macro} second\n\n*** third {undef}', abort=True)
+            b = ctx.impl.render(case['src'], safeMode=case['safeMode'], reset=True, callback=True)
+            res.count('after_abandoned_call')
+            if b[0] != 'ok' or nonl(b[1]) != nonl(case['expected']):
+                res.violation('list nesting depends on a preceding abandoned call', case, {'got': b[1:], 'expected': case['expected']})
